@@ -270,7 +270,7 @@ CHECKS["C04"] = dict(
     assumptions=["btls: data inside OpenSSL's write buffer is not observable; the flushed-but-undelivered rule is "
                  "applied to btcp and the messaging transports only"],
     quick=dict(workers=16, cases=100, maxsize=120),
-    thorough=dict(workers=16, cases=5000, maxsize=300),
+    thorough=dict(workers=16, cases=1500, maxsize=300),
 )
 
 CHECKS["C16"] = dict(
@@ -293,7 +293,7 @@ CHECKS["C16"] = dict(
           "I/O (so bells / SSL pending state were exercised) before the probes ran."),
     assumptions=["the control interface is disabled (XCM_CTL points nowhere), as the property's quiescence requires"],
     quick=dict(workers=16, cases=60, maxsize=120),
-    thorough=dict(workers=16, cases=5000, maxsize=300),
+    thorough=dict(workers=16, cases=1200, maxsize=300),
 )
 
 CHECKS["C05"] = dict(
@@ -316,7 +316,7 @@ CHECKS["C05"] = dict(
     assumptions=["a DNS-named xcm.local_addr is excluded from the main campaign (recorded finding) and exercised "
                  "by a directed replay"],
     quick=dict(workers=16, cases=120, maxsize=120),
-    thorough=dict(workers=16, cases=4000, maxsize=300),
+    thorough=dict(workers=16, cases=1200, maxsize=300),
 )
 
 CHECKS["C13"] = dict(
@@ -400,7 +400,7 @@ CHECKS["C08"] = dict(
           "ladder ran), or the program contained fork + cleanup."),
     assumptions=["control-interface creation failing silently (socket still returned) is by design"],
     quick=dict(workers=16, cases=8, maxsize=15, env={"VF_C08_CAP": "150"}),
-    thorough=dict(workers=16, cases=300, maxsize=15),
+    thorough=dict(workers=16, cases=40, maxsize=15),
 )
 
 CHECKS["C20"] = dict(
@@ -431,7 +431,7 @@ CHECKS["C20"] = dict(
           "still in flight, or a connection re-opened after a close)."),
     assumptions=["a side that closes first lets its own socket finish (xcm_finish == 0), as C03 requires of senders"],
     quick=dict(workers=16, cases=60, maxsize=60),
-    thorough=dict(workers=16, cases=3000, maxsize=60),
+    thorough=dict(workers=16, cases=2000, maxsize=60),
 )
 
 CHECKS["C14"] = dict(
@@ -552,7 +552,7 @@ CHECKS["C15"] = dict(
           "connections were created by at least 2 threads running concurrently."),
     assumptions=["no two threads ever use the same socket at the same time (hand-over goes through a mutex)"],
     quick=dict(workers=8, cases=12, maxsize=400),
-    thorough=dict(workers=12, cases=200, maxsize=400),
+    thorough=dict(workers=8, cases=120, maxsize=400),
 )
 
 NOT_APPLICABLE = []
